@@ -19,6 +19,7 @@ import ZlModel.Walkers
 import ZlModel.Names
 import ZlModel.Thresholds
 import ZlModel.Der
+import ZlModel.JsonString
 open Zl Zl.Proto
 
 namespace Zl.Driver
@@ -429,6 +430,18 @@ def opDer (kind : String) (fields : List String) : String :=
     | .error => "error" | .pass => "pass"
   | _, _ => "bad-op"
 
+/-! ### JSON string codec (C14) -/
+
+def opJs (kind : String) (fields : List String) : String :=
+  match kind, fields with
+  | "js-quote", [html, h] => hexOfBytes (JsonString.quote (html == "1") ((unhexBytes h).getD []))
+  | "js-unquote", [h] =>
+    match JsonString.unquote ((unhexBytes h).getD []) with
+    | none => "fail"
+    | some out => "ok " ++ hexOfBytes out
+  | "js-sanitize", [h] => hexOfBytes (JsonString.sanitize ((unhexBytes h).getD []))
+  | _, _ => "bad-op"
+
 def step (line : String) : String :=
   match line.splitOn "\t" with
   | "fw" :: rest => opFw rest
@@ -456,6 +469,9 @@ def step (line : String) : String :=
   | "srclist" :: rest => opSrcList rest
   | "der-read" :: rest => opDer "der-read" rest
   | "der-walk" :: rest => opDer "der-walk" rest
+  | "js-quote" :: rest => opJs "js-quote" rest
+  | "js-unquote" :: rest => opJs "js-unquote" rest
+  | "js-sanitize" :: rest => opJs "js-sanitize" rest
   | "names" :: rest => opNames rest
   | "thr-val" :: rest => opThr "thr-val" rest
   | "thr-rc" :: rest => opThr "thr-rc" rest
